@@ -233,6 +233,37 @@ func runC03(c *Ctx) {
 			}
 		}
 	}
+	// operand objects reused: one pair of big.Ints is set to each point in turn and handed to ScalarMult again and again
+	// (an accumulator, a PublicKey that is updated in place) — serially, so that every call directly follows the previous
+	// one; then the same with the scalar buffer reused. Whatever is remembered about the last operands must be a copy.
+	{
+		ox, oy := new(big.Int), new(big.Int)
+		kb := make([]byte, 32)
+		n := 0
+		for i := 0; i < len(sms) && n < c.Q(400, 4000); i += 1 + len(sms)/c.Q(400, 4000) {
+			cs := sms[i]
+			if len(cs.s.b) > 32 {
+				continue
+			}
+			ox.Set(cs.p.x)
+			oy.Set(cs.p.y)
+			for j := range kb {
+				kb[j] = 0
+			}
+			copy(kb[32-len(cs.s.b):], cs.s.b)
+			k := new(big.Int).SetBytes(cs.s.b)
+			wx, wy := ref.Mul(new(big.Int).Mod(k, ref.N), ref.FromXY(cs.p.x, cs.p.y)).XY()
+			var x, y *big.Int
+			w := map[string]interface{}{"scalar": mon.Hex(cs.s.b), "point": ptStr(cs.p.x, cs.p.y), "point_class": cs.p.cls, "history": "the same *big.Int operands and scalar buffer as in the previous call, set in place"}
+			if pi := mon.Guard(func() { x, y = curve.ScalarMult(ox, oy, kb) }); pi != nil {
+				rep.Violation("C03/ScalarMult/panic/"+pi.Func+"/operands-reused", pi.Value, w)
+			} else if x.Cmp(wx) != 0 || y.Cmp(wy) != 0 {
+				rep.Violation("C03/ScalarMult/wrong-point/operand-objects-reused-after-in-place-update", fmt.Sprintf("scalar %x point %s=%s got %s want %s", cs.s.b, cs.p.cls, ptStr(cs.p.x, cs.p.y), ptStr(x, y), ptStr(wx, wy)), w)
+			}
+			n++
+			rep.Eval("SM-operands-reused/" + cs.p.cls)
+		}
+	}
 	Par(len(sms), func(i int) {
 		cs := sms[i]
 		k := new(big.Int).SetBytes(cs.s.b)
